@@ -134,6 +134,9 @@ func c11Gen(rt *rapid.T) c11Prog {
 			p.Ops = append(p.Ops, wOp{K: "tick", N: gPick(rt, []int{100, 4000}, "ms")})
 		case x < 52:
 			p.Ops = append(p.Ops, wOp{K: "acc", S: 1, U: rapid.IntRange(0, 2).Draw(rt, "u"), A: gPick(rt, []string{"susp", "ok", ""}, "st")})
+		case x < 56:
+			// create a new account, mostly asking to be logged in as that account right away
+			p.Ops = append(p.Ops, wOp{K: "acc", S: 1, B: "new", A: fmt.Sprintf("newbie%d:%s", i, c11Password), F: gPct(rt, 75)})
 		default:
 			p.Ops = append(p.Ops, reqs())
 		}
@@ -152,6 +155,7 @@ type c11Obs struct {
 	refused  int
 	served   int
 	reached  bool
+	unknown  bool // the session created an account and logged in as it: the model does not follow further
 }
 
 func (o *c11Obs) doSetup(w *wWorld) {
@@ -205,7 +209,35 @@ func (o *c11Obs) userOK(u int) (ok bool, needCred bool) {
 }
 
 func (o *c11Obs) After(w *wWorld, st *wStep) *kit.Viol {
-	if st.Sess != 1 || st.Skipped {
+	if st.Sess != 1 || st.Skipped || o.unknown {
+		return nil
+	}
+	if st.Op.K == "acc" && st.Op.B == "new" {
+		code := st.code()
+		uidNow := w.sess[1].s.uid
+		switch {
+		case !o.ver:
+			if code < 400 || !uidNow.IsZero() {
+				return kit.V("request-before-handshake:acc", "{acc new} before {hi} was answered %d", code)
+			}
+		case o.uid >= 0 && st.Op.F:
+			// a session logs in at most once: creating an account with login=true on an authenticated session
+			if code < 400 || uidNow != w.users[o.uid].uid {
+				return kit.V("second-login-via-acc-new", "{acc user=new login=true} on a session authenticated as user %d was answered %d; the session is now %s", o.uid, code, uidNow.UserId())
+			}
+			o.refused++
+		case o.uid >= 0:
+			if uidNow != w.users[o.uid].uid {
+				return kit.V("second-login-via-acc-new", "{acc user=new} without login changed the session's user to %s", uidNow.UserId())
+			}
+		default:
+			if !uidNow.IsZero() {
+				if !st.Op.F {
+					return kit.V("acc-new-logged-in-unasked", "{acc user=new} without login=true authenticated the session as %s", uidNow.UserId())
+				}
+				o.unknown = true
+			}
+		}
 		return nil
 	}
 	if st.Op.K == "tick" {
